@@ -26,7 +26,7 @@ def features(r):
 
 def run(tier: str, seed: int) -> int:
     n = 400 if tier == "quick" else 5000
-    cases = gen_cases(PROP, n, seed, ["C04", "C02"], features, small_budgets=True)
+    cases = gen_cases(PROP, n, seed, ["C04", "C02"], features, chain_frac=0.3, small_budgets=True)
     return run_property(
         PROP, "harness.props.c04", THEOREMS, MODULES, cases, tier, seed,
         rule="random runs over the configuration lattice (maxiter from 0, maxfun from 1, maxls, ftol, gtol float/callable, "
